@@ -34,6 +34,7 @@ def main():
     src, sid = sys.argv[1], sys.argv[2]
     checks = None
     skip_tests = "--skip-tests" in sys.argv
+    scratch = "--scratch" in sys.argv  # run the checks on the scratch worktree
     if "--checks" in sys.argv:
         checks = sys.argv[sys.argv.index("--checks") + 1].split(",")
     meta = json.load(open(os.path.join(src, "meta.json")))
@@ -59,7 +60,7 @@ def main():
         rc1, out1 = sh(f"{PY} {demo}", cwd=wt, env=env, timeout=600)
         result["demo_patched_exit"] = rc1
         if not skip_tests:
-            rct, outt = sh(f"{PY} -m pytest -q -p no:cacheprovider -n 8 "
+            rct, outt = sh(f"{PY} -m pytest -q -p no:cacheprovider -n 6 "
                            "2>&1 | tail -3", cwd=wt, timeout=1800)
             result["tests"] = outt.strip().splitlines()[-1] if outt.strip() \
                 else ""
@@ -68,24 +69,41 @@ def main():
         else:
             result["tests"] = "skipped"
             result["tests_pass"] = None
+        detected = {}
+        if scratch:
+            from concurrent.futures import ThreadPoolExecutor
+
+            def run(pid):
+                rc, out = sh(f"./check {pid} quick", cwd=VERIF,
+                             env={"VERIF_NOEVIDENCE": "1", "VERIF_REPO": wt},
+                             timeout=900)
+                viol = [l for l in out.splitlines()
+                        if l.startswith("finding:")]
+                return pid, {"exit": rc,
+                             "findings": [v[:300] for v in viol[:6]]}
+            with ThreadPoolExecutor(4) as ex:
+                for pid, d in ex.map(run, checks):
+                    detected[pid] = d
     finally:
         sh(f"git -C /repo worktree remove --force {wt}")
         shutil.rmtree(wt, ignore_errors=True)
-    # detection on /repo itself
-    rc, out = sh("git -C /repo status --porcelain")
-    assert out.strip() == "", "/repo is not clean: " + out
-    rc, out = sh(f"git -C /repo apply {os.path.join(src, 'patch.diff')}")
-    assert rc == 0, out
-    detected = {}
-    try:
-        for pid in checks:
-            rc, out = sh(f"./check {pid} quick", cwd=VERIF,
-                         env={"VERIF_NOEVIDENCE": "1"}, timeout=900)
-            viol = [l for l in out.splitlines() if l.startswith("finding:")]
-            detected[pid] = {"exit": rc, "findings": [v[:300] for v in viol[:6]]}
-    finally:
-        sh("git -C /repo checkout -- .")
-        sh("rm -rf /tmp/verif-scratch-evidence-*")
+    if not scratch:
+        # detection on /repo itself
+        rc, out = sh("git -C /repo status --porcelain")
+        assert out.strip() == "", "/repo is not clean: " + out
+        rc, out = sh(f"git -C /repo apply {os.path.join(src, 'patch.diff')}")
+        assert rc == 0, out
+        try:
+            for pid in checks:
+                rc, out = sh(f"./check {pid} quick", cwd=VERIF,
+                             env={"VERIF_NOEVIDENCE": "1"}, timeout=900)
+                viol = [l for l in out.splitlines()
+                        if l.startswith("finding:")]
+                detected[pid] = {"exit": rc,
+                                 "findings": [v[:300] for v in viol[:6]]}
+        finally:
+            sh("git -C /repo checkout -- .")
+            sh("rm -rf /tmp/verif-scratch-evidence-*")
     result["checks"] = {k: v["exit"] for k, v in detected.items()}
     result["caught_by"] = [k for k, v in detected.items() if v["exit"] == 1]
     result["analysis_errors"] = [k for k, v in detected.items()
@@ -125,8 +143,11 @@ def main():
             "ran": [f"{PY} demo.py (PYTHONPATH=<worktree>) before/after "
                     "git apply patch.diff in a scratch worktree",
                     f"{PY} -m pytest -q -p no:cacheprovider -n 8 (with patch)",
-                    "git -C /repo apply patch.diff; ./check <ID> quick for "
-                    "every registered check; git -C /repo checkout -- ."],
+                    ("VERIF_REPO=<scratch worktree of /repo HEAD with "
+                     "patch.diff applied> ./check <ID> quick for every "
+                     "registered check" if scratch else
+                     "git -C /repo apply patch.diff; ./check <ID> quick for "
+                     "every registered check; git -C /repo checkout -- .")],
             "detection": {k: {"exit": v["exit"], "findings": v["findings"]}
                           for k, v in detected.items() if v["exit"] != 0},
             "caught_by": result["caught_by"],
